@@ -157,6 +157,16 @@ impl Scheduler for PbDfs {
         if cur_runnable && is_yielding && options.is_empty() {
             options.push(current.unwrap());
         }
+        // All shuttle tasks are coroutines of one OS thread, so
+        // `std::thread::panicking()` is true for whichever task runs while one
+        // task unwinds: a context switch at that moment would make unrelated
+        // mutex guards poison their mutex. While the current task unwinds it is
+        // therefore the only option (fewer schedules, no artefacts).
+        if std::thread::panicking() && cur_runnable {
+            options.clear();
+            options.push(current.unwrap());
+            preemptible = false;
+        }
         let n = options.len() as u32;
         let mut choice = if self.step < self.prefix.len() { self.prefix[self.step] } else { 0 };
         let mut sh = self.shared.lock().unwrap();
@@ -293,7 +303,7 @@ pub fn explore(sc: &Scenario, bound: usize, max_execs: u64, budget_s: f64) -> Sc
             let (o1, f1, d1) = replay_once(sc, &failing);
             let (o2, f2, d2) = replay_once(sc, &failing);
             if d1.is_some() || d2.is_some() {
-                rep.machinery = Some(format!("replay of the failing schedule diverged: {:?} {:?}", d1, d2));
+                rep.machinery = Some(format!("replay of the failing schedule diverged: {:?} {:?} (original failure: {})", d1, d2, msg));
             } else if f1.is_none() || f2.is_none() {
                 rep.machinery = Some(format!("failure '{}' not reproduced on replay ({:?}, {:?})", msg, f1, f2));
             } else if o1 != o2 {
